@@ -22,6 +22,7 @@ type Session struct {
 	participantIDs   SequentialIDGenerator
 	participantMutex sync.RWMutex
 	participants     map[uint32]*Participant
+	ended            bool
 
 	entityIDs   SequentialIDGenerator
 	entityMutex sync.RWMutex
@@ -67,18 +68,32 @@ func (s *Session) NewParticipantID() uint32 {
 	return s.participantIDs.New()
 }
 
-func (s *Session) AddParticipant(p *Participant) {
+// AddParticipant adds the participant to the session. It reports false, and
+// adds nothing, when the session has ended: its last participant has left.
+func (s *Session) AddParticipant(p *Participant) bool {
 	s.participantMutex.Lock()
 	defer s.participantMutex.Unlock()
 
+	if s.ended {
+		return false
+	}
 	s.participants[p.ID] = p
+	return true
 }
 
-func (s *Session) RemoveParticipant(p *Participant) {
+// RemoveParticipant removes the participant from the session. It reports
+// whether this removed the last participant, which ends the session: no
+// participant can be added anymore and the caller has to unregister it.
+func (s *Session) RemoveParticipant(p *Participant) bool {
 	s.participantMutex.Lock()
 	defer s.participantMutex.Unlock()
 
 	delete(s.participants, p.ID)
+	if len(s.participants) == 0 && !s.ended {
+		s.ended = true
+		return true
+	}
+	return false
 }
 
 func (s *Session) GetParticipants() []*Participant {
